@@ -542,8 +542,22 @@ class API:
                             public_methods=selective_gapic_methods
                         )
                 else:
+                    # A resource type may be declared more than once: by a message
+                    # and also by a file-level `google.api.resource_definition`
+                    # (a synthetic message with an empty address). The message that
+                    # carries the resource takes precedence whichever file comes first,
+                    # otherwise a resource reference would lead nowhere and the real
+                    # resource message would be pruned.
                     all_resource_messages = collections.ChainMap(
-                        *(proto.resource_messages for proto in protos.values())
+                        *(
+                            {
+                                resource_type: message
+                                for resource_type, message in proto.resource_messages.items()
+                                if message.meta.address.proto
+                            }
+                            for proto in protos.values()
+                        ),
+                        *(proto.resource_messages for proto in protos.values()),
                     )
 
                     # Prepare a list of addresses to include in selective generation,
